@@ -64,6 +64,19 @@ def lattice(seed, quick):
             if up:
                 cfg["user_pool"] = up
             cfgs.append(cfg)
+    # single-precision parameters configured through nessai.config (log-likelihoods stay float64):
+    # whichever path evaluates the likelihood, its values reach the sampler unrounded
+    # (standard sampler only: the importance sampler's up-front check of its rescaling rejects
+    # single-precision parameters, which is not a matter of this property)
+    for kind in ("std",):
+        for p in ({}, {"n_pool": 2}, {"user_pool": 2}, {"n_pool": 2, "likelihood_chunksize": 7}):
+            p = dict(p)
+            up = p.pop("user_pool", None)
+            base = {"nlive": 10, "poolsize": 10, "maximum_uninformed": 10} if kind == "std" else {"max_iteration": 2}
+            cfg = {"kind": kind, "model": "G2", "seed": seed, "kwargs": {**base, **p}, "resume": "none", "nessai_config": {"default_float_dtype": "f4"}}
+            if up:
+                cfg["user_pool"] = up
+            cfgs.append(cfg)
     cfgs.append({"kind": "ins", "model": "G3a", "seed": seed, "kwargs": {"max_iteration": 2}, "resume": "none"})
     cfgs.append({"kind": "ins", "model": "G3a", "seed": seed, "kwargs": {"max_iteration": 2, "n_pool": 2}, "resume": "none"})
     return cfgs
@@ -275,7 +288,7 @@ def run(ctx):
         cfg = cfgs[cid]
         # a class = everything but the parallelisation settings
         other = {k: v for k, v in cfg["kwargs"].items() if k not in ("n_pool", "likelihood_chunksize", "parallelise_prior")}
-        key = (cfg["kind"], cfg["seed"], cfg.get("model", "G2"), json.dumps(other, sort_keys=True, default=str))
+        key = (cfg["kind"], cfg["seed"], cfg.get("model", "G2"), json.dumps(other, sort_keys=True, default=str), json.dumps(cfg.get("nessai_config", {}), sort_keys=True))
         for d in ds:
             if "error" in d:
                 ctx.violation(f"run-failed@{runs.cfg_key(cfg)}", f"{d['error']} (config {cfg}, PYTHONHASHSEED={d.get('hashseed')})", {"cfg": cfg})
